@@ -711,7 +711,7 @@ class Parser(ExprParser):
         elif self.have("ID"):
             pass
         else:
-            value = None
+            self.error_msg("Expected a value after '=', found {}", self.token.typ)
         self.exit("initializer")
         return value
 
